@@ -7,13 +7,15 @@ VARIABLE i
 Lines(s) == [k \in DOMAIN s |-> [d |-> s[k].d, row |-> s[k].row]]
 Verdict(r) ==
   LET sent == Lines(r.sent)
-      ex == Extra(sent, r.shown, 1)
       pathLines == [k \in DOMAIN r.paths |-> [d |-> Len(r.paths[k]) - 1, row |-> r.paths[k][Len(r.paths[k])]]]
+      \* flattening vendors (juniper, ribbon, nokia, routeros) send one line per command path; what is displayed is the nested patch, so for
+      \* them the body of the stream is the sequence of command paths and the display clauses do not apply
+      ex == Extra(sent, IF r.flat THEN pathLines ELSE r.shown, 1)
       bodyPos == {k \in DOMAIN sent : \A j \in DOMAIN ex : ex[j] # k}
   IN
-  IF ~NestingOK(r.shown) THEN <<"shown-patch-nesting-broken", 0>>
-  ELSE IF pathLines # r.shown THEN <<"cmd-paths-differ-from-shown-patch", 0>>
-  ELSE IF PathsOf(r.shown, <<>>) # r.paths THEN <<"cmd-path-nesting-differs-from-shown", 0>>
+  IF ~r.flat /\ ~NestingOK(r.shown) THEN <<"shown-patch-nesting-broken", 0>>
+  ELSE IF ~r.flat /\ pathLines # r.shown THEN <<"cmd-paths-differ-from-shown-patch", 0>>
+  ELSE IF ~r.flat /\ PathsOf(r.shown, <<>>) # r.paths THEN <<"cmd-path-nesting-differs-from-shown", 0>>
   ELSE IF \E j \in DOMAIN ex : ex[j] = 0 THEN <<"sent-stream-is-not-the-shown-patch", 0>>
   ELSE IF \E j \in DOMAIN ex : sent[ex[j]].d # 0 \/ sent[ex[j]].row \notin WrapperCmds THEN <<"non-wrapper-command-added", 0>>
   ELSE IF ~r.docommit /\ \E j \in DOMAIN ex : sent[ex[j]].row \in CommitCmds THEN <<"commit-sent-although-disabled", 0>>
